@@ -18,9 +18,9 @@ import (
 
 func init() {
 	ev.Register(&ev.Check{
-		ID:    "C19",
-		Level: "model_checking",
-		Rule: "explicit-state BFS to a fixpoint over the REAL generated maps (ASTNodes; RuleASTNodes from zero value, NewRuleASTNodes and MakeRuleASTNodes; Constraints via the verif hook): state = (order slice including the stale backing array beyond len, len, data as seen by Get), alphabet = Set(k,v) k in {a,b,c} v in {1,2}, Update, Delete, Filter x 3 predicates, Map(swap), Map(fail at 2nd); a successor is a fresh object + replay of the shortest history + one operation; in every state every observer (Get, GetValue, Has, Len, Each, EachSafe, Find x 3, MarshalJSON) and every callback visit log is compared with the reference insertion-ordered map. Concurrent part: all interleavings of 2 threads x 2 ops / 3 threads x 1 op at lock points under the controlled scheduler with the race detector as per-schedule happens-before monitor and brute-force linearizability. Non-trivial = a distinct (map type, canonical state, operation) transition.",
+		ID:          "C19",
+		Level:       "model_checking",
+		Rule:        "explicit-state BFS to a fixpoint over the REAL generated maps (ASTNodes; RuleASTNodes from zero value, NewRuleASTNodes and MakeRuleASTNodes; Constraints via the verif hook): state = (order slice including the stale backing array beyond len, len, data as seen by Get), alphabet = Set(k,v) k in {a,b,c} v in {1,2}, Update, Delete, Filter x 3 predicates, Map(swap), Map(fail at 2nd); a successor is a fresh object + replay of the shortest history + one operation; in every state every observer (Get, GetValue, Has, Len, Each, EachSafe, Find x 3, MarshalJSON) and every callback visit log is compared with the reference insertion-ordered map. Concurrent part: all interleavings of 2 threads x 2 ops / 3 threads x 1 op at lock points under the controlled scheduler with the race detector as per-schedule happens-before monitor and brute-force linearizability. Non-trivial = a distinct (map type, canonical state, operation) transition.",
 		Workers:     func(string) int { return 7 },
 		ExtraID:     "C19c",
 		Run:         run,
